@@ -50,6 +50,10 @@ def build_case(cs, profile):
         kw['shape'] = rng.choice(shapes)
     if profile.get('medium_rate') and rng.random() < profile['medium_rate']:
         kw.update(max_s=6, max_p=4, max_l=3, min_s=4)
+    if profile.get('large_rate') and rng.random() < profile['large_rate']:
+        # too large to enumerate: judged by the output oracles only (validity, stability, statistics)
+        kw.update(max_s=25, max_p=12, max_l=6, min_s=12)
+        kw['shape'] = rng.choice(['dense', 'lowerq', 'tight_lecturer', 'no_ties', 'dense'])
     spec = sp.make_spec(rng, **kw)
     okw = dict(profile.get('opts', {}))
     ncrit_choices = okw.pop('ncrit_choices', None)
@@ -66,6 +70,8 @@ def lp_case(cs, ctx, profile, probe_rate=0.0, probe_cap=64):
     ref = en.reference(spec, opts)
     if spec.get('shape') == 'shipped':
         ctx.cnt('shipped_evaluation_instances')
+    if spec['ns'] >= 10:
+        ctx.cnt('instances_with_10_or_more_students')
     ex = en.run_lp(spec, opts, ctx.workdir, rng, inject=profile.get('inject', True))
     do_probe = ref['enumerable'] and rng.random() < probe_rate
     cnt = {}
